@@ -304,7 +304,7 @@ def _closure_of(node, f):
             return b
         return None
     comp = None
-    if isinstance(node, ast.Call) and src(node.func) in ('set.union', 'set().union') and len(node.args) == 1 \
+    if isinstance(node, ast.Call) and src(node.func) in ('set.union', 'set().union', 'frozenset().union') and len(node.args) == 1 \
             and isinstance(node.args[0], ast.Starred):
         comp = node.args[0].value
         if isinstance(comp, (ast.ListComp, ast.GeneratorExp, ast.SetComp)) and len(comp.generators) == 1 \
@@ -349,6 +349,8 @@ def r5_selection(ctx):
     inc_p, exc_p = valid.params[1:3]
     rets = symex.returns(valid)
     ctx.expect_count('R5', 'return paths of valid', len(rets), 1)
+    if len(rets) > 200:
+        raise AnalysisError(f'{valid.loc}: valid has {len(rets)} return paths')
     vi = ctx.prog.find_method(mapper, '_validate_include')
     ve = ctx.prog.find_method(mapper, '_validate_exclude')
     for cond, val, sp in rets:
@@ -368,13 +370,32 @@ def r5_selection(ctx):
             ctx.violation('R5', at, valid.qualname, 'valid-shape',
                           f'valid returns `{src(val)[:120]}`, expected closure(include) - closure(exclude)')
             continue
-        ca, cb = _closure_of(A, valid), _closure_of(B, valid)
         want_a = {f'cls._validate_include({inc_p})', f'cls._validate_include(include={inc_p})'}
         want_b = {f'cls._validate_exclude({exc_p})', f'cls._validate_exclude(exclude={exc_p})'}
-        ctx.check(ca in want_a and cond == ('const', True), 'R5', at, valid.qualname, 'valid-include-closure',
+
+        def is_closure(X, want):
+            c = _closure_of(X, valid)
+            if c in want:
+                return True, c
+            # the closure of the empty set is the empty set: X itself (or set()) on a path where X is known to be empty
+            sx = src(X)
+            if sx in want or sx in ('set()', 'frozenset()'):
+                for w in (want if sx not in want else [sx]):
+                    a = f'nonempty({w})'
+                    ats = G.atoms_of(cond)
+                    if a in ats:
+                        import itertools
+                        others = [x for x in ats if x != a]
+                        if not any(G.evaluate(cond, dict(zip(others, bits), **{a: True}))
+                                   for bits in itertools.product([False, True], repeat=len(others))):
+                            return True, f'{w} (empty on this path)'
+            return False, c
+        oka, ca = is_closure(A, want_a)
+        okb, cb = is_closure(B, want_b)
+        ctx.check(oka, 'R5', at, valid.qualname, 'valid-include-closure',
                   'left operand is the descendant closure of the normalised include set',
                   f'left operand `{src(A)[:100]}` is not closure(_validate_include(include)) (closure of `{ca}`)')
-        ctx.check(cb in want_b, 'R5', at, valid.qualname, 'valid-exclude-closure',
+        ctx.check(okb, 'R5', at, valid.qualname, 'valid-exclude-closure',
                   'right operand is the descendant closure of the normalised exclude set',
                   f'right operand `{src(B)[:100]}` is not closure(_validate_exclude(exclude)) (closure of `{cb}`)')
     # validators: truth table of the isinstance chain
@@ -392,12 +413,23 @@ def r5_selection(ctx):
     p = nodes.params[1]
     rets = symex.returns(nodes)
     loc_ = f'cls._find_subtree(cls.hierarchy, {p})'
-    ok = len(rets) == 1 and src(rets[0][1]).replace('tree=', '').replace('parent=', '') in (
-        f'cls._nodes({loc_}) if {loc_} is not None else set()',
-        f'set() if {loc_} is None else cls._nodes({loc_})')
+    none_atom = f'{loc_} is None'
+    ok = bool(rets)
+    shown = []
+    for cond, val, sp in rets:
+        fm = G._formula(ast.parse(G.show(cond).replace('tree=', '').replace('parent=', ''), mode='eval').body) if False else cond
+        ats = [a.replace('tree=', '').replace('parent=', '') for a in G.atoms_of(cond)]
+        v = src(val).replace('tree=', '').replace('parent=', '')
+        shown.append(f'{v} if {G.show(cond)}')
+        if ats != [none_atom]:
+            ok = False
+            continue
+        absent = G.evaluate(cond, {G.atoms_of(cond)[0]: True})
+        ok = ok and (v == 'set()' if absent else v == f'cls._nodes({loc_})')
+    ok = ok and len(rets) == 2
     ctx.check(ok, 'R5', nodes.loc, nodes.qualname, 'nodes-via-deep-locator',
               'nodes(c) = _nodes(_find_subtree(root, c)) (empty when absent)',
-              f'nodes returns `{src(rets[0][1]) if rets else None}`')
+              f'nodes returns {shown}')
     # _match: closure(category) & valid(...) non-empty
     m = ctx.prog.func(f'{N.MAPPER}._match')
     cat = m.params[1]
